@@ -334,6 +334,44 @@ def rule_ariform(ctx):
     yield ob(R, f, "segment._adjusted_rand_index:formula", good, "the returned value is (S - AB/N) / ((A+B)/2 - AB/N) over the pair counts of cells (S), rows (A), columns (B) and all frames (N = n(n-1)/2) - compared as exact rational functions" if good else "the returned expression is not the adjusted Rand index of the contingency table (as a rational function of the cell / row / column pair counts it differs from (S - AB/N) / ((A+B)/2 - AB/N))", node=main[0].node)
 
 
+    # exactness of the product A * B: both factors reach ~n^2 / 2, so their product passes 2^63 from about 110 000
+    # frames (three hours at the default frame size) - it has to be formed over Python integers (comb(.., exact=1),
+    # int(..)) or floats, not over NumPy int64 scalars, which wrap around silently
+    def np_int_sum(t):
+        """is the value a NumPy integer scalar: a NumPy reduction, or the builtin sum of NumPy integers"""
+        if t.op == "call" and call_name(t) in ("np.sum",):
+            return True
+        if t.op == "call" and call_name(t) == "builtins.sum" and t.a[1] and t.a[1][0].op == "comp":
+            el = t.a[1][0].a[1]
+            el0 = el
+            if el0.op == "call" and call_name(el0) == "builtins.int":
+                return False
+            if el0.op == "call" and call_name(el0) == "scipy.special.comb":
+                ex = dict(el0.a[2]).get("exact")
+                if ex is None and len(el0.a[1]) >= 3:
+                    ex = el0.a[1][2]
+                return not (ex is not None and ex.op == "const" and bool(ex.a[0]))
+            # arithmetic on the elements of an array: python ints only if every leaf was converted with int()
+            leaves = [z for z in tm.walk(el0) if z.op == "iter"]
+            conv = [z for z in tm.walk(el0) if z.op == "call" and call_name(z) == "builtins.int" and z.a[1] and z.a[1][0].op == "iter"]
+            return not (leaves and len(conv) >= 1 and all(any(c.a[1][0] is l for c in conv) for l in leaves) and not any(z.op == "bin" and any(y.op == "iter" for y in z.a[1:]) for z in tm.walk(el0)))
+        return False
+
+    prods = [z for z in tm.walk(main[0].term) if z.op == "bin" and z.a[0] == "*" and all(_pairs_sum_carrier(y) is not None for y in z.a[1:])]
+    for k, z in enumerate(prods[:1]):
+        raw = [y for y in z.a[1:] if np_int_sum(y)]
+        good_x = not raw  # (one NumPy factor is enough: int64 * python int is int64)
+        if not good_x:
+            # float(..) leaves no trace in a term (it is a numeric no-op there): look at the source before judging
+            import ast as _ast
+
+            srcs = [f.node] + [ctx.program.func(q).node for q in getattr(s, "inlined", ()) if ctx.program.has_func(q)]
+            wrapped = any(isinstance(n_, _ast.Call) and isinstance(n_.func, _ast.Name) and n_.func.id in ("float", "int") and any(isinstance(m_, _ast.Call) and ((isinstance(m_.func, _ast.Attribute) and m_.func.attr == "sum") or (isinstance(m_.func, _ast.Name) and m_.func.id == "sum")) for m_ in _ast.walk(n_)) for src in srcs for n_ in _ast.walk(src))
+            if wrapped:
+                raise AnalysisError(R, "_adjusted_rand_index: the row and column pair sums are NumPy reductions and a float()/int() conversion of a sum occurs in the function; whether both factors are converted before they are multiplied cannot be read from the term")
+        yield ob(R, f, "segment._adjusted_rand_index:exact-product", good_x, "the product of the row and column pair sums is formed over Python integers / floats" if good_x else "the row and column pair sums are NumPy int64 scalars (%s): their product wraps around beyond 2^63, i.e. from about 110 000 frames, and the index is silently wrong" % " * ".join(tm.show(y, 2) for y in raw), node=main[0].node)
+
+
 def rule_nceform(ctx):
     """Which quantity normalises which, in nce(): facets of the documented definition."""
     R = "C16.NCEFORM"
